@@ -186,6 +186,7 @@ func c18Cases(env vk.Env) []vk.Case {
 		cs = append(cs, vk.Case{ID: fmt.Sprintf("finite/%d", i), Run: func(t *vk.T) { c18Finite(t, i) }})
 	}
 	cs = append(cs, vk.Case{ID: "nilpool", Run: c18Nil})
+	cs = append(cs, vk.Case{ID: "worker-counts", Run: c18Counts})
 	return cs
 }
 
@@ -538,4 +539,41 @@ func c18Nil(t *vk.T) {
 		t.Distinct("nilpool|count=%d", cnt)
 	}
 	t.Sample(map[string]any{"kind": "nil pool", "counts": "0..5"})
+}
+
+// c18Counts: every worker count a caller may pass (documented: count <= 0 means one worker per CPU) gives a pool
+// that returns exact results for task counts from 0 upward and can be used again.
+func c18Counts(t *vk.T) {
+	c18Install()
+	setHook(nil)
+	callNo := 0
+	for _, wc := range []int{3, 1, 0, -1, -2, -16} {
+		var p *pool.Pool
+		if pnk, fr, txt := vk.Guard(func() { p = pool.NewPool(wc) }); pnk {
+			t.Violation("counts|newpool-panic|"+fr, "NewPool(%d) panicked: %s", wc, txt)
+			continue
+		}
+		alive := true
+		for round := 0; round < 2 && alive; round++ {
+			for _, cnt := range []int{0, 1, 2, 7} {
+				for _, op := range []string{"parallelize", "search"} {
+					callNo++
+					desc := fmt.Sprintf("%s(count=%d) on NewPool(%d), use %d", op, cnt, wc, round)
+					if !c18Call(t, p, op, cnt, callNo, "counts|"+op, desc, nil) {
+						alive = false // did not return: nothing more can be asked of this pool
+						break
+					}
+					t.Distinct("counts|workers=%d|%s|tasks=%d", wc, op, cnt)
+				}
+				if !alive {
+					break
+				}
+			}
+		}
+		if alive {
+			conservation(t, "counts", fmt.Sprintf("NewPool(%d) after all calls", wc), true)
+			p.TearDown()
+		}
+	}
+	t.Sample(map[string]any{"kind": "worker counts", "counts": []int{3, 1, 0, -1, -2, -16}, "tasks": []int{0, 1, 2, 7}})
 }
